@@ -222,7 +222,30 @@ func H_C04_KV() {
 	vAssert("c04.b-unchanged", c04Same(o0, o1))
 	vAssert("c04.b-unchanged-other-key", c04Same(o0a, c04Observe(db, B, ka)))
 	vAssert("c04.own-value-b", vAnd(!o1.getErr, len(o1.getVal) == 1 && vEqBytes(o1.getVal, vb)))
-	db.Close()
+	// one transaction that writes both buckets, then a reopen: each bucket still returns its own
+	k2 := vBytes(1)
+	va2, vb2 := vBytes(1), vBytes(1)
+	err = db.Update(func(tx *Tx) error {
+		if e := tx.Put(A, k2, va2, 0); e != nil {
+			return e
+		}
+		return tx.Put(B, k2, vb2, 0)
+	})
+	vAssert("c04.two-bucket-tx-ok", err == nil)
+	own := func(id string, d *DB) {
+		ga, gb := c04Observe(d, A, k2), c04Observe(d, B, k2)
+		vAssert(id+".a", vAnd(!ga.getErr, len(ga.getVal) == 1 && vEqBytes(ga.getVal, va2)))
+		vAssert(id+".b", vAnd(!gb.getErr, len(gb.getVal) == 1 && vEqBytes(gb.getVal, vb2)))
+	}
+	own("c04.two-bucket-tx-own-values", db)
+	vAssert("c04.close", db.Close() == nil)
+	db2, err := Open(vOpts(db.opt.Dir, mode, FileIO, 4096))
+	vAssert("c04.reopen", err == nil)
+	if err != nil {
+		return
+	}
+	own("c04.two-bucket-tx-own-values-after-reopen", db2)
+	db2.Close()
 }
 
 // H_C04_DS: list / set / sorted-set buckets with symbolic names.
